@@ -352,7 +352,26 @@ Definition P_C14_block (prev : snapshot) (b : blk) : bool :=
     | Some d => eqb_list Z.eqb (sv_power <$> dv_stakes d) expect
     | None => match expect with [] => true | _ => false end
     end) (all_dels prev).
-Definition P_C14 (c : acase) : bool := forall_blocks c P_C14_block.
+(* downtime: a validator reported as not having signed, with no evidence against it and no staking
+   transaction touching it in the block, loses ALL its stake to unbonding IFF, counting the block
+   just missed, the blocks it signed inside the window fall below the minimum; otherwise its stakes
+   are untouched.  (Stated from the recorded missed heights, independently of Spec.v's bookkeeping.) *)
+Definition P_C14_jail_block (prev : snapshot) (b : blk) : bool :=
+  let g := sn_params prev in
+  let sh := h_height (k_hdr b) - 1 in
+  let s0 := if sh - g_signedBlocksWindow g <? 0 then 0 else sh - g_signedBlocksWindow g in
+  forallb (λ x : addr * del_view,
+    let a := x.1 in
+    if negb (missed_vote b a) || touched_by_tx b a || negb (Nat.eqb (count_occ_addr a (h_evidence (k_hdr b))) 0) then true else
+    let marks := x.2.2 in
+    let all := if existsb (Z.eqb sh) marks then marks else marks ++ [sh] in
+    let missed := Z.of_nat (length (List.filter (λ m, (s0 <=? m) && (m <=? sh)) all)) in
+    let jailed := g_signedBlocksWindow g - missed <? g_minSignedBlocks g in
+    match sn_del (k_snap b) a with
+    | None => jailed
+    | Some d => negb jailed && eqb_list Z.eqb (sv_power <$> dv_stakes d) (sv_power <$> dv_stakes x.2)
+    end) (all_dels prev).
+Definition P_C14 (c : acase) : bool := forall_blocks c (λ prev b, P_C14_block prev b && P_C14_jail_block prev b).
 
 (* ------------------------------------------------------------------ C10: validator updates *)
 Definition apply_ups (set : list (addr * Z)) (ups : list (addr * Z)) : option (list (addr * Z)) :=
